@@ -480,6 +480,13 @@ def run(rep, tier, seed):
     common.prove(rep)
     rng = common.rng_for(seed, 'C10')
     drv = common.Driver()
+    # the decoders' completeness gate (`requiredComponents.issubset(seenIndices)`) is translated from the source on every run
+    # (GenK.requiredSeen / requiredSeenIndef); Props/C10 source_missing_mandatory_is_refused / source_complete_record_passes
+    # are theorems about that translation, which is compared here with what the real decoders do on SETs and SEQUENCEs with
+    # members left out
+    from harness import kernels
+    kernels.obligations(rep, ['requiredSeen', 'requiredSeenIndef'])
+    kernels.check(rep, drv, seed, 150 if tier == 'quick' else 5000, which=('requiredSeen',))
     n = 500 if tier == 'quick' else 20000
     rep.rule = ('inputs: valid encodings of T, encodings of values of neighbouring types (one member retyped/retagged), and mutations of '
                 'both, decoded with T by the three decoders; every accepted result is checked by the independent evaluator '
